@@ -152,3 +152,67 @@ Theorem C20_repo_v1_pep440_mapping_systematic :
                                          "v{year}{build}{release}"; "{year}{build}{release}"].
 Proof. exact repo_v1_pep440_mapping_systematic. Qed.
 Print Assumptions C20_repo_v1_pep440_mapping_systematic.
+
+(* ---- Proofs.V1E2E ---- *)
+From Coq Require Import List Bool NArith ZArith Arith.
+From BV Require Import Lib.PyStr Lib.Decimal Lib.Calendar Model.V2 Model.Pep440 Model.Cli Model.V1 Model.CliAll Model.Lexid Proofs.DottedFacts Proofs.V1E2E.
+Import ListNotations.
+(* v1_semver_e2e :
+   forall (today : Z) (fl : flags) (a b c : N) (d : option Z), SE.only_part_flags fl -> one_part_flag fl = true -> let new := dotted (if f_major fl then [(a + 1)%N; 0%N; 0%N] else if f_minor fl then [a; (b + 1)%N; 0%N] else [a; b; (c + 1)%N]) in test_cmd today (dotted [a; b; c]) V1Facts.P_semver fl (option_map Some d) None = Exit0 new (to_pep440 new) /\ to_pep440 new = new /\ ver_lt (dotted [a; b; c]) new = true /\ new = dotted (SE.semver_next fl a b c) *)
+Theorem C20_v1_semver_e2e : ltac:(let t := type of v1_semver_e2e in exact t).
+Proof. exact v1_semver_e2e. Qed.
+Print Assumptions C20_v1_semver_e2e.
+
+(* v1_semver_test_cmd :
+   forall (today : Z) (fl : flags) (a b c : N) (d : option Z), SE.only_part_flags fl -> part_flag fl = true -> let new := dotted (sv1_next fl a b c) in test_cmd today (dotted [a; b; c]) V1Facts.P_semver fl (option_map Some d) None = Exit0 new (to_pep440 new) /\ to_pep440 new = new /\ ver_lt (dotted [a; b; c]) new = true *)
+Theorem C20_v1_semver_test_cmd : ltac:(let t := type of v1_semver_test_cmd in exact t).
+Proof. exact v1_semver_test_cmd. Qed.
+Print Assumptions C20_v1_semver_test_cmd.
+
+(* v1_semver_noflag :
+   forall (today : Z) (fl : flags) (a b c : N) (d : option Z), SE.only_part_flags fl -> part_flag fl = false -> test_cmd today (dotted [a; b; c]) V1Facts.P_semver fl (option_map Some d) None = ExitErr *)
+Theorem C20_v1_semver_noflag : ltac:(let t := type of v1_semver_noflag in exact t).
+Proof. exact v1_semver_noflag. Qed.
+Print Assumptions C20_v1_semver_noflag.
+
+(* v1_pycalver_e2e :
+   forall (today date : Z) (fl : flags) (ft : option (option ST.ptag)) (y m : N) (bid : list N) (T : option ST.ptag), (1000 <= y <= 9999)%N -> (1 <= m <= 12)%N -> all_digits bid = true -> 4 <= length bid -> (0 <= date <= MAX_ORD)%Z -> pyc_flags fl ft -> let T' := next_tag ft T in test_cmd today (pyc y m bid T) V1Facts.P_pycalver fl (Some (Some date)) None = match next_id bid with | Some b' => Exit0 (pyc_next y m b' T' date) (to_pep440 (pyc_next y m b' T' date)) | None => ExitErr end /\ (next_id bid = None <-> LexidFacts.all_nines bid = true) /\ (forall b' : list N, next_id bid = Some b' -> let new := pyc_next y m b' T' date in v1_parse_version_info (pyc y m bid T) V1Facts.P_pycalver = POk (pyc_info (Z.of_N y) (Z.of_N m) bid T) /\ v1_format_version (pyc_info (Z.of_N y) (Z.of_N m) bid T) V1Facts.P_pycalver = Some (pyc y m bid T) /\ v1_incr (pyc y m bid T) V1Facts.P_pycalver fl date = INew new /\ ver_lt (pyc y m bid T) new = true /\ (undec bid < undec b')%N /\ all_digits b' = true /\ length bid <= length b' /\ (exists y' m' : N, new = pyc y' m' b' T' /\ (1000 <= y' <= 9999)%N /\ (1 <= m' <= 12)%N /\ (y * 100 + m <= y' * 100 + m')%N /\ (y' = y /\ m' = m \/ y' = Z.to_N (year_y (cal_of date)) /\ m' = Z.to_N (month (cal_of date))) /\ to_pep440 new = dotted [(y' * 100 + m')%N; undec b'] ++ pep_suffix T')) *)
+Theorem C20_v1_pycalver_e2e : ltac:(let t := type of v1_pycalver_e2e in exact t).
+Proof. exact v1_pycalver_e2e. Qed.
+Print Assumptions C20_v1_pycalver_e2e.
+
+(* v1_pycalver_test_cmd :
+   forall (today date : Z) (fl : flags) (ft : option (option ST.ptag)) (y m : N) (bid b' : list N) (T : option ST.ptag), (1000 <= y <= 9999)%N -> (1 <= m <= 12)%N -> all_digits bid = true -> 4 <= length bid -> (0 <= date <= MAX_ORD)%Z -> pyc_flags fl ft -> next_id bid = Some b' -> let new := pyc_next y m b' (next_tag ft T) date in test_cmd today (pyc y m bid T) V1Facts.P_pycalver fl (Some (Some date)) None = Exit0 new (to_pep440 new) /\ ver_lt (pyc y m bid T) new = true *)
+Theorem C20_v1_pycalver_test_cmd : ltac:(let t := type of v1_pycalver_test_cmd in exact t).
+Proof. exact v1_pycalver_test_cmd. Qed.
+Print Assumptions C20_v1_pycalver_test_cmd.
+
+(* v1_pycalver_overflow :
+   forall (today date : Z) (fl : flags) (ft : option (option ST.ptag)) (y m : N) (bid : list N) (T : option ST.ptag), (1000 <= y <= 9999)%N -> (1 <= m <= 12)%N -> all_digits bid = true -> 4 <= length bid -> pyc_flags fl ft -> LexidFacts.all_nines bid = true -> test_cmd today (pyc y m bid T) V1Facts.P_pycalver fl (Some (Some date)) None = ExitErr *)
+Theorem C20_v1_pycalver_overflow : ltac:(let t := type of v1_pycalver_overflow in exact t).
+Proof. exact v1_pycalver_overflow. Qed.
+Print Assumptions C20_v1_pycalver_overflow.
+
+(* v1_pycalver_tag :
+   forall (today date : Z) (Tf : option ST.ptag) (y m : N) (bid b' : list N) (T : option ST.ptag), (1000 <= y <= 9999)%N -> (1 <= m <= 12)%N -> all_digits bid = true -> 4 <= length bid -> (0 <= date <= MAX_ORD)%Z -> next_id bid = Some b' -> let new := pyc_next y m b' Tf date in test_cmd today (pyc y m bid T) V1Facts.P_pycalver {| f_major := false; f_minor := false; f_patch := false; f_tag := Some (ST.ltext Tf); f_tag_num := false; f_pin_increments := false; f_pin_date := false |} (Some (Some date)) None = Exit0 new (to_pep440 new) /\ ver_lt (pyc y m bid T) new = true *)
+Theorem C20_v1_pycalver_tag : ltac:(let t := type of v1_pycalver_tag in exact t).
+Proof. exact v1_pycalver_tag. Qed.
+Print Assumptions C20_v1_pycalver_tag.
+
+(* v1_pycalver_pin_date :
+   forall (today : Z) (fl : flags) (ft : option (option ST.ptag)) (y m : N) (bid b' : list N) (T : option ST.ptag), (1000 <= y <= 9999)%N -> (1 <= m <= 12)%N -> all_digits bid = true -> 4 <= length bid -> f_tag fl = option_map ST.ltext ft -> f_tag_num fl = false -> f_pin_date fl = true -> next_id bid = Some b' -> let new := pyc y m b' (next_tag ft T) in test_cmd today (pyc y m bid T) V1Facts.P_pycalver fl None None = Exit0 new (to_pep440 new) /\ ver_lt (pyc y m bid T) new = true /\ (forall d : option Z, test_cmd today (pyc y m bid T) V1Facts.P_pycalver fl (Some d) None = ExitErr) *)
+Theorem C20_v1_pycalver_pin_date : ltac:(let t := type of v1_pycalver_pin_date in exact t).
+Proof. exact v1_pycalver_pin_date. Qed.
+Print Assumptions C20_v1_pycalver_pin_date.
+
+(* pyc_flags_complete :
+   forall fl : flags, f_tag_num fl = false -> f_pin_date fl = false -> validate_release_tag (f_tag fl) = true -> exists ft : option (option ST.ptag), pyc_flags fl ft *)
+Theorem C20_pyc_flags_complete : ltac:(let t := type of pyc_flags_complete in exact t).
+Proof. exact pyc_flags_complete. Qed.
+Print Assumptions C20_pyc_flags_complete.
+
+(* to_pep440_pyc :
+   forall (y m : N) (bid : list N) (T : option ST.ptag), (m <= 12)%N -> all_digits bid = true -> bid <> [] -> to_pep440 (pyc y m bid T) = dotted [(y * 100 + m)%N; undec bid] ++ pep_suffix T *)
+Theorem C20_to_pep440_pyc : ltac:(let t := type of to_pep440_pyc in exact t).
+Proof. exact to_pep440_pyc. Qed.
+Print Assumptions C20_to_pep440_pyc.
